@@ -9,6 +9,11 @@ R31a atomicity: in the coroutine that saves a method, the branch on the stored m
 R31b the rpc to the engine and the write are reachable only under `stored version == submitted version`.
 R31c the accepted path bumps `.version` by exactly 1, exactly once, before the write.
 R31d ownership: EngineData.method is assigned only by the save path (and the constructor).
+R31f the version outlives the connection: the aggregator's engine data is created anew (method version 0) whenever the engine
+     re-registers, while the engine keeps the version of the last accepted save and sends its method on every (re)connection. The
+     handler that takes over the engine's method lines (handle_MethodMsg) must take over its version as well - `version` assigned
+     from an expression that reads `msg.method.version` - and never lower it. Otherwise two saves based on the same version are both
+     accepted when the engine reconnects between them.
 Decides the shape that makes concurrent saves serialise; does not model the asyncio scheduler itself.
 """
 from __future__ import annotations
@@ -94,7 +99,7 @@ def _callers_hold_lock(ctx, f) -> tuple[bool, list[str]]:
     return ok, desc
 
 
-def run(ctx) -> None:
+def _run_main(ctx) -> None:
     prog = ctx.prog
     ed = prog.cls("openpectus.aggregator.models:EngineData")
     entry = prog.func(f"{FF}.save_method")
@@ -265,5 +270,36 @@ def run(ctx) -> None:
     ctx.floor("R31d", 2)
 
 
+def _r31f(ctx) -> None:
+    prog = ctx.prog
+    ctx.rule("R31f", "the method version survives an engine reconnect")
+    h = prog.func("openpectus.aggregator.aggregator_message_handlers:AggregatorMessageHandlers.handle_MethodMsg")
+    ctx.analysed(h)
+    mpar = h.node.args.args[1].arg
+    lines_w = [st for t, v, st in assigned_attrs(h.node) if t.attr == "lines" and f"{mpar}.method.lines" in norm(v)]
+    if not lines_w:
+        raise AnchorError("handle_MethodMsg: adoption of the engine's method lines not found")
+    ver_w = [(t, v, st) for t, v, st in assigned_attrs(h.node) if t.attr == "version"]
+    inst = "handle_MethodMsg: the engine's method version is adopted together with its lines, never lowered"
+    good = False
+    for t, v, st in ver_w:
+        txt = norm(v)
+        if f"{mpar}.method.version" in txt and (txt.startswith("max(") or any(
+                f"{mpar}.method.version >" in norm(e) or f"< {mpar}.method.version" in norm(e) for e, pol in cfg_of(h).conditions_at(cfg_of(h).node_containing(st)[0]))):
+            good = True
+    if good:
+        ctx.ok("R31f", inst)
+    else:
+        ctx.fail("R31f", h, lines_w[0], inst, "only the lines are taken over: after a websocket drop the re-registered engine data starts at version 0 "
+                 "although the engine (and every editor that loaded the method) is at version 1 - users A and B load version 0, A saves "
+                 "(accepted, version 1), the engine reconnects, B saves on version 0 and is accepted as well, overwriting A's text on the "
+                 "aggregator and on the engine")
+
+
 def _is_neq(e) -> bool:
     return isinstance(e, ast.Compare) and len(e.ops) == 1 and isinstance(e.ops[0], ast.NotEq)
+
+
+def run(ctx) -> None:
+    _run_main(ctx)
+    _r31f(ctx)
